@@ -449,7 +449,21 @@ func runStoreBehaviourHooked(w *tr.Writer, b storeBehaviour, seed int64, scratch
 			_ = syscall.Getrlimit(syscall.RLIMIT_FSIZE, &old)
 			signal.Ignore(syscall.SIGXFSZ)
 			_ = syscall.Setrlimit(syscall.RLIMIT_FSIZE, &syscall.Rlimit{Cur: uint64(op.Limit), Max: old.Max})
-			id, err := st.AddMessage(d)
+			var id string
+			var err error
+			if b.Events {
+				// through the manager (which announces what it stored), as every other delivery of an events history
+				mgr := &message.StoreManager{AddrPolicy: &policy.Addressing{Config: &config.Root{MailboxNaming: config.LocalNaming, SMTP: config.SMTP{DefaultAccept: true, DefaultStore: true}}}, Store: st, ExtHost: host}
+				rcpt, rerr := mgr.AddrPolicy.NewRecipient(name + "@example.com")
+				if rerr != nil {
+					err = rerr
+				} else {
+					content := append([]byte("Subject: "+meta.Subject+"\r\n\r\n"), body...)
+					err = mgr.Deliver(&policy.Origin{Address: *meta.From}, []*policy.Recipient{rcpt}, "Received: from verif ([127.0.0.1]) by verif\r\n", content)
+				}
+			} else {
+				id, err = st.AddMessage(d)
+			}
 			_ = syscall.Setrlimit(syscall.RLIMIT_FSIZE, &old)
 			ev["r"], ev["id"], ev["size"], ev["limit"] = errClass(err), id, len(body), op.Limit
 			if err != nil {
@@ -458,6 +472,13 @@ func runStoreBehaviourHooked(w *tr.Writer, b storeBehaviour, seed int64, scratch
 			written := tr.ProjectMsg(&message.Delivery{Meta: meta, Reader: bytes.NewReader(body)})
 			written.Meta.Hash = tr.HashBytes(body)
 			ev["meta"] = written.Meta
+			if b.Events && err == nil {
+				if ms, _ := st.GetMessages(name); len(ms) > 0 {
+					pm := tr.ProjectMsg(ms[len(ms)-1])
+					id = pm.ID
+					ev["id"], ev["size"], ev["meta"] = pm.ID, pm.Size, pm.Meta
+				}
+			}
 			if err == nil {
 				issued[op.Mb] = append(issued[op.Mb], id)
 			}
